@@ -100,6 +100,82 @@ def gen(tier, seed):
     return cases
 
 
+PANIC_SHAPE_PROGRAM = r"""
+use std::panic::{catch_unwind, AssertUnwindSafe};
+use std::sync::Mutex;
+static SEEN: Mutex<Vec<String>> = Mutex::new(Vec::new());
+#[derive(Debug)] struct P { a: i32, b: String }
+fn p() -> P { P { a: 1, b: "x".to_string() } }
+/// what a failing assertion looked like to the code around it
+fn shape(r: std::thread::Result<()>) -> String {
+    match r {
+        Ok(()) => "returned-normally".to_string(),
+        Err(e) => match e.downcast::<String>() {
+            Ok(s) => format!("panic:String:{}", if s.contains("assert_struct! failed") && s.contains("got ") { "report" } else { "other-text" }),
+            Err(e) => if e.downcast_ref::<&str>().is_some() { "panic:&str".to_string() } else { "panic:other-payload".to_string() },
+        },
+    }
+}
+fn failing() { let v = p(); assert_struct!(v, P { a: 2, b: "y" }); }
+/// the assertion fails inside the destructor of a value that is dropped because ANOTHER panic is unwinding
+struct InDrop(&'static str);
+impl Drop for InDrop { fn drop(&mut self) { let r = catch_unwind(|| failing()); SEEN.lock().unwrap().push(format!("{} {}", self.0, shape(r))); } }
+/// a value whose Debug impl observes how often it is formatted
+fn main() {
+    std::panic::set_hook(Box::new(|_| {}));
+    let _plain = assert_struct::__macro_support::PlainOutputGuard::new();
+    println!("shape plain {}", shape(catch_unwind(|| failing())));
+    println!("shape nested {}", shape(catch_unwind(|| { let inner = catch_unwind(|| failing()); println!("shape nested-inner {}", shape(inner)); failing(); })));
+    println!("shape thread {}", shape(std::thread::spawn(|| failing()).join()));
+    let _ = catch_unwind(|| { let _g = InDrop("drop-while-unwinding"); panic!("outer panic"); });
+    { let _g = InDrop("drop-on-the-ordinary-path"); }
+    let _ = catch_unwind(|| { let _a = InDrop("drop-while-unwinding-outer"); let _b = InDrop("drop-while-unwinding-inner"); failing(); });
+    println!("shape in-closure-pattern {}", shape(catch_unwind(|| { let v = p(); assert_struct!(v, P { a: |cl_x| { failing(); *cl_x == 1 }, .. }); })));
+    println!("shape in-operand {}", shape(catch_unwind(|| { let v = p(); assert_struct!(v, P { a: == { failing(); 1 }, .. }); })));
+    println!("shape after-a-caught-one {}", shape(catch_unwind(|| { let _ = catch_unwind(|| failing()); failing(); })));
+    for s in SEEN.lock().unwrap().iter() { println!("shape {}", s); }
+}
+"""
+
+
+def panic_shape(res):
+    """`A failed assertion is always one ordinary, catchable panic with the report`: through the real macro, a failing assertion seen
+    from the code around it - plainly, nested in another catch_unwind, on another thread, inside a destructor that runs on the ordinary
+    path and one that runs because another panic is unwinding, inside a closure pattern and an operand of another assertion, after an
+    earlier caught failure.  In every place it must be a panic whose payload is a String holding the report."""
+    import e2e
+    name = "direct:a failing assertion is a catchable panic carrying the report, wherever it is executed (real macro)"
+    res.obligations.append(name)
+    o = e2e.compile_many([e2e.PRELUDE + PANIC_SHAPE_PROGRAM], run=True, tag="c06p")[0]
+    e2e.cleanup("c06p")
+    if not o["compiled"]:
+        res.violation("no-failing-input-found", "the panic-shape program of C06 no longer compiles against /repo: " + o["stderr"][-1200:], {"obligation": name})
+        return 0
+    seen = {}
+    for l in o.get("stdout", "").splitlines():
+        if l.startswith("shape "):
+            _, where, what = l.split(" ", 2)
+            seen[where] = what
+    places = ["plain", "nested", "nested-inner", "thread", "drop-while-unwinding", "drop-on-the-ordinary-path", "drop-while-unwinding-outer",
+              "drop-while-unwinding-inner", "in-closure-pattern", "in-operand", "after-a-caught-one"]
+    bad = 0
+    if o.get("exit") not in (0,):
+        bad += 1
+        res.violation("failing-input", "the program of failing assertions in eleven places did not run to its end (exit %s): a failing assertion was not a "
+                      "catchable panic somewhere; places reached: %s" % (o.get("exit"), sorted(seen)), {"panic_shape_program": True, "stderr": o.get("run_stderr", "")[-800:]})
+    for w in places:
+        got = seen.get(w)
+        if got != "panic:String:report" and not (bad and got is None):
+            bad += 1
+            if bad <= 3:
+                res.violation("failing-input", "a failing assertion executed %s is seen by the code around it as `%s`, not as a panic carrying the report"
+                              % (w.replace("-", " "), got), {"panic_shape_program": True, "place": w, "seen": seen})
+    res.streams["panic-shape(real macro)"] = {"places": len(places), "wrong": bad, "seen": seen}
+    if not bad:
+        res.discharged.append(name)
+    return bad
+
+
 def run(res):
     res.trusted += ["Coq 8.16.1 kernel (coqc)", "extraction to OCaml (ExtrOcamlBasic only), ocaml/conv.ml, ocaml/main.ml",
                     "harness/rt and the cfg-guarded span log in error.rs",
@@ -118,6 +194,7 @@ def run(res):
     ok, out = vlib.build_harness("rt")
     if not ok:
         raise vlib.CheckError("harness rt does not build against /repo: " + out[-1500:])
+    panic_shape(res)
     cases = gen(res.tier, res.seed)
     impl, hung = vlib.run_harness_or_hang("rt", [], cases, timeout=120 if res.tier == "quick" else 3000)
     if hung:
@@ -165,6 +242,10 @@ def run(res):
 
 def replay(res, path):
     v = json.load(open(path))
+    if v.get("panic_shape_program"):
+        n = panic_shape(res)
+        print("panic-shape program re-run:", "violation" if n else "property holds on these inputs")
+        return 1 if n else 0
     line = v.get("case_line") or v.get("first_disagreement", {}).get("case_line")
     ok, out = vlib.build_harness("rt")
     if not ok:
